@@ -125,6 +125,23 @@ func (a *activityManager) dispatch() {
 		}
 		log := new(raft.Log)
 		if err := raftNode.store.GetLog(index, log); err != nil {
+			// Entries that are not commands (barriers, no-ops) do not wake
+			// this loop, so it can stand at an index that a snapshot has
+			// compacted out of the log by the time the next command is
+			// committed. As when starting, continue at the first entry there
+			// is (or after the commit index if the log store is empty).
+			if err == raft.ErrLogNotFound {
+				if first, ferr := raftNode.store.FirstIndex(); ferr == nil {
+					if first > index {
+						index = first
+						continue
+					}
+					if first == 0 {
+						index = raftNode.getCommitIndex() + 1
+						continue
+					}
+				}
+			}
 			panic(err)
 		}
 		if log.Type != raft.LogCommand {
